@@ -298,6 +298,8 @@ SUMMARY = [
  ("positive-rejected:exc=OverflowError:range-check-of-other-overload", "order", "the range check of a small integer parameter raises OverflowError unconditionally, also inside an overload set: f(str, unsigned char) tried first rejects f('', 32767) although f(str, short) accepts it (no fix proposed)"),
  ("const-argument-passed-as-copy:param=obj:cref", "constcopy", "a const instance passed for a `const K &` parameter of a coercible class (default-constructible, converting constructor) reaches the body as a temporary copy (Dtool_Coerce_K copies const objects), so the callee does not see the object's identity and a returned reference dangles (no small fix)"),
  ("const-argument-passed-as-copy:param=obj:cptr", "constcopy", "same for `const K *` parameters (no small fix)"),
+ ("const-argument-passed-as-copy:param=obj:ptr", "constcopy", "same defect for non-const `K *` parameters: a const instance, which C++ could not pass at all, is accepted and the function works on a temporary copy (Dtool_Coerce_K copies const objects) instead of raising TypeError (no small fix)"),
+ ("const-argument-passed-as-copy:param=obj:ref", "constcopy", "same defect for non-const `K &` parameters: a const instance is accepted and the function works on a temporary copy instead of raising TypeError (no small fix)"),
  ("const-argument-passed-as-copy:result-dangles", "constcopy", "consequence: a function returning (a pointer into) its const-reference argument returns a pointer to that destroyed temporary copy; the Python result wraps freed stack memory (no small fix)"),
  ("inherited-comparison-lost", "richcmp", "the tp_richcompare slot is written per class from its own operators only: a derived class that declares any comparison operator (or whose first base has none) no longer reaches operator== / < / ... inherited from a base; Python then falls back to identity comparison, the reflected operator or TypeError (no small fix)"),
 ]
